@@ -326,6 +326,40 @@ def run(outdir, lane, nlanes):
     sh("git -C %s checkout -q -- . && git -C %s clean -fdq" % (lrepo, lrepo), 60)
 
 
+def extra(outdir, lane, nlanes, fname, checks):
+    """survivors of one file against further checks (properties not anchored in that file but exercising it)"""
+    muts = json.load(open(os.path.join(outdir, "mutants.json")))
+    lrepo = os.path.join(outdir, "lane%d" % lane, "repo")
+    lverif = os.path.join(outdir, "lane%d" % lane, "verif")
+    env = dict(os.environ, SKV_REPO=lrepo, PYTHONHASHSEED="0", PYTHONDONTWRITEBYTECODE="1")
+    k = 0
+    for m in muts:
+        rp = os.path.join(outdir, "res", m["id"] + ".json")
+        if not m["file"].endswith(fname) or not os.path.exists(rp):
+            continue
+        res = json.load(open(rp))
+        if res["tests"] != "pass" or res.get("caught_by"):
+            continue
+        k += 1
+        if k % nlanes != lane:
+            continue
+        sh("git -C %s checkout -q -- . && git -C %s clean -fdq" % (lrepo, lrepo), 60)
+        open(os.path.join(lrepo, m["file"]), "w").write(open(os.path.join(outdir, "m", m["id"] + ".py")).read())
+        for c in checks:
+            if c in [x[0] for x in res["checks_run"]]:
+                continue
+            rc, out, dt = sh("%s/check %s 2>&1 | grep -a 'VIOLATION\\|KNOWN-FINDING' | head -5" % (lverif, c), 1500, env=env)
+            res["checks_run"].append([c, round(dt, 1)])
+            if "VIOLATION" in out:
+                res["caught_by"] = c
+                res["violation"] = out.strip().split("\n")[0][:300]
+                res["concrete"] = "no-failing-input-found" not in out
+                break
+        json.dump(res, open(rp, "w"), indent=1)
+        print(lane, m["id"], res.get("caught_by"), flush=True)
+    sh("git -C %s checkout -q -- . && git -C %s clean -fdq" % (lrepo, lrepo), 60)
+
+
 def report(outdir):
     muts = json.load(open(os.path.join(outdir, "mutants.json")))
     rows = []
@@ -361,5 +395,7 @@ if __name__ == "__main__":
         gen(sys.argv[2], seed, scale)
     elif cmd == "run":
         run(sys.argv[2], int(sys.argv[3]), int(sys.argv[4]))
+    elif cmd == "extra":
+        extra(sys.argv[2], int(sys.argv[3]), int(sys.argv[4]), sys.argv[5], sys.argv[6].split(","))
     elif cmd == "report":
         report(sys.argv[2])
